@@ -235,6 +235,11 @@ impl Driver for Attack {
                         if let Some(pk) = claimed_key {
                             if util::ref_verify_id_signature(&pk, ephem_pubkey, data.as_ref(), &w.nodes[V].id, id_nonce_sig) {
                                 w.proved.insert((claim.raw(), addr.socket_addr));
+                                // a genuine handshake of M carrying one of its own records: the PING
+                                // enclosed in it must reach V's application in this very step
+                                if (1..=4).contains(&rec) {
+                                    w.scratch.push(("expect-request".into(), addr.socket_addr.to_string().into_bytes()));
+                                }
                             }
                         }
                     }
@@ -312,6 +317,17 @@ impl Driver for Attack {
     }
 
     fn check(&self, w: &mut World, ev: &Ev, pre: &[Option<HandlerSnapshot>]) {
+        // responder liveness (handler part of C14): transient marker set by a genuine handshake
+        if let Some(pos) = w.scratch.iter().position(|(k, _)| k == "expect-request") {
+            let (_, from) = w.scratch.remove(pos);
+            let from = String::from_utf8(from).unwrap_or_default();
+            let delivered = w.last_raw[V].iter().any(|e| matches!(e, HandlerOut::Request(a, r) if a.node_id == m_id() && a.socket_addr.to_string() == from && r.id.0 == vec![0xEE]));
+            if delivered {
+                w.count("requests_in_genuine_handshakes_delivered");
+            } else {
+                w.violate("C14", "every PING is answered: a request enclosed in a valid handshake reaches the application", "request-in-handshake-dropped", format!("V did not hand the PING enclosed in M's valid handshake from {from} to its application after {:?}", ev));
+            }
+        }
         // harness-side fact for genuine handshakes of X delivered in this step
         let x_id = w.nodes[X].id;
         let x_pub = w.nodes[X].enr.public_key();
@@ -439,7 +455,7 @@ pub fn regression_holds(payload: &serde_json::Value, prop: &str) -> bool {
         Some((_, c)) => c.clone(),
         None => return true,
     };
-    let monitors = Monitors { c03: prop == "C03", c04: prop == "C04", c13: prop == "C13", c15: false, c19: false };
+    let monitors = Monitors { c03: prop == "C03", c04: prop == "C04", c13: prop == "C13", c15: false, c19: false, c20: false };
     let d = driver(true);
     rt::run(run_history_with(&cfg, monitors, &hist, true, &d)).violation.is_none()
 }
@@ -452,14 +468,14 @@ pub fn replay(payload: &serde_json::Value, prop: &str) {
         Some((_, c)) => c.clone(),
         None => mc::machinery(&format!("unknown attack configuration {name}")),
     };
-    let monitors = Monitors { c03: prop == "C03", c04: prop == "C04", c13: prop == "C13", c15: false, c19: false };
+    let monitors = Monitors { c03: prop == "C03", c04: prop == "C04", c13: prop == "C13", c15: false, c19: false, c20: false };
     let d = driver(true);
     rt::run(crate::hsim::replay_verbose(&cfg, monitors, &hist, &d));
 }
 
 /// Runs the attacker worlds and returns (stats, violations for `prop`).
 pub fn explore(prop: &str, thorough: bool, budget_s: f64, k_max: u32) -> (mc::Stats, Vec<mc::Violation>, Vec<serde_json::Value>) {
-    let monitors = Monitors { c03: prop == "C03", c04: prop == "C04", c13: prop == "C13", c15: false, c19: false };
+    let monitors = Monitors { c03: prop == "C03", c04: prop == "C04", c13: prop == "C13", c15: false, c19: false, c20: false };
     let d = driver(thorough);
     let cfgs = configs(thorough);
     let start = clock::wall();
